@@ -93,7 +93,12 @@ let contains (hay : string) (needle : string) : bool =
   if m = 0 then true else begin
     let found = ref false and i = ref 0 in
     while not !found && !i + m <= n do
-      if String.sub hay !i m = needle then found := true else incr i
+      if String.unsafe_get hay !i = String.unsafe_get needle 0 then begin
+        let j = ref 1 in
+        while !j < m && String.unsafe_get hay (!i + !j) = String.unsafe_get needle !j do incr j done;
+        if !j = m then found := true
+      end;
+      incr i
     done; !found end
 
 let handle (x : sexp) : (string * string) list =
